@@ -160,6 +160,8 @@ def make_items(tier, rnd):
             asm_srcs.append(asmsrc.render(dirs).encode())
     for b in BAD_ASM:
         asm_srcs.append(b.encode())
+    for b in ("", "# only a comment\n", "\n\n   \n", "lab\n", "# c\nlab\n# d\n"):      # accepted, but produce an (almost) empty image
+        asm_srcs.append(b.encode())
     for i in range(n // 20):
         # token-level damage of a valid program
         dirs, meta = asmgen.generate(random.Random(rnd.randrange(1 << 62)))
